@@ -83,3 +83,34 @@ def run_sort_consts(repo, task):
     rep = dict(name=task['name'], status='ok' if items else 'checker-fault', items=items, failures=failures, evaluations=0, distinct=0, rule='',
                samples=[dict(obligation=i['name'], verdict=i['verdict']) for i in items[:3]], trusted=[], assumptions=[], wall_s=round(time.time() - t0, 2))
     return rep
+
+
+CROSSCHECK_KEYS = ['slice_to_inclusive_slice', 'TypeBlocks._cols_to_slice', 'slice_to_ascending_slice']      # leaf functions only: with callee contracts the engine result is not functional
+
+
+def run_crosscheck(repo, task):
+    """encoder cross-check of pyvc against CPython on the pure integer/slice targets (checker self-validation)"""
+    import itertools
+    from specs import load_all
+    from pyvc.crosscheck import crosscheck
+    from bounded import enums
+    t0 = time.time()
+    C, R = load_all()
+    keys = CROSSCHECK_KEYS
+    key = keys[task.get('shard', 0) % len(keys)]
+    gen, _ = enums.ENUMS[key]
+    seed = task.get('seed', 0)
+    limit = 25 if task.get('tier') == 'quick' else 150
+    allin = list(gen())
+    step = max(1, len(allin) // limit)
+    sample = allin[(seed % step)::step]
+    r = crosscheck(repo, key, C[key], C, R, iter(sample), limit=limit)
+    items = [dict(name=f'crosscheck:{key}', fn=key, kind='X', verdict='proved' if not r['problems'] and r['samples'] else 'undecided', backend='z3', ms=r['wall_s'] * 1000,
+                  note=f"{r['agree']}/{r['samples']} sampled executions: engine result proved equal to CPython's")]
+    rep = dict(name=task['name'], status='ok', items=items, failures=[], evaluations=r['samples'], distinct=r['agree'],
+               rule='encoder cross-check: sampled inputs from the per-function enumerator; non-trivial = CPython and engine both produced a result',
+               samples=[dict(function=key, agree=r['agree'], samples=r['samples'])], trusted=[], assumptions=[], wall_s=round(time.time() - t0, 2))
+    if r['problems']:
+        rep['status'] = 'checker-fault'
+        rep['detail'] = f'pyvc disagrees with CPython on {key}: {r["problems"][:2]}'
+    return rep
